@@ -13,10 +13,10 @@ CLAIMED={
  'C08':('exploration','per-connection envelope monitor (wire recorded at write time, callbacks, close) under the adversarial workload with timers, cuts, Stop, store refusals, non-Logon first messages, slow application callbacks with a second frame waiting behind, and an application that sends from inside its inbound callbacks'),
  'C09':('exploration','in-flight corruption of live traffic (19 kinds, envelope repaired in half of them) in every session state; process survival, watchdog (spinning engine goroutine), recovered-panic probe and liveness probe; every corrupted frame and truncations of it also go through ParseMessage(+dictionaries) and the typed accessors directly, and damaged settings text / dictionary XML through ParseSettings / datadictionary.ParseSrc (pure functions riding along); dictionaries that load are validated against; tasks sharing one message under the cooperative scheduler (codec locks as scheduling points, a typed accessor must not hang)'),
  'C12':('exploration','same byte stream under several read schedules to the real parser (raw and through bufio) and through an engine\'s readLoop behind simnet; metamorphic + model oracle'),
- 'C16':('exploration','real memory/file/SQL stores vs. a reference model, operation by operation, incl. refresh, reset, reopen, shared backing store, on the simulated disk / sqlite3; SQL statements refused inside Refresh and Reset (an operation that reports an error changes nothing)'),
+ 'C16':('exploration','real memory/file/SQL stores vs. a reference model, operation by operation, incl. refresh, reset, reopen, shared backing store (twin sessions differing in one id part, optional parts empty or set), on the simulated disk / sqlite3; SQL statements refused inside Refresh and Reset (an operation that reports an error changes nothing)'),
  'C17':('fault_enumeration','crash points of the interrupted store operation ENUMERATED from the simulated disk\'s op log (every disk op, every byte of small writes), process-crash and power-loss images, reopen + literal evaluation + further operations; SQL: every statement of save-and-increment failed in turn; histories are sampled'),
  'C18':('exploration','real Acceptor (and, in a quarter of the runs, real Initiator) under clock jumps over days/weeks and time zones incl. DST changes; accept/refuse, dial/no dial, logout at window end and store reset vs. an independent wall-clock calendar; directed mode putting a window edge into the hour a clock change skips or repeats'),
- 'C20':('exploration','timing oracle on the real run loop with real timers on simulated time; slow Logon answers; a counterparty that stops reading (writes on the connection block)'),
+ 'C20':('exploration','timing oracle on the real run loop with real timers on simulated time; slow Logon answers; a counterparty that stops reading (writes on the connection block); a busy application working through a burst while timers fall due, the simulator deciding which ready source the session loop serves (select gate), judged from the end of the last callback'),
 }
 extra=json.load(open('/verif/claimed.json')) if False else {}
 NA={
@@ -47,7 +47,7 @@ def main():
         else:
             na.append({"property_id":i,"reason":NA.get(i,"check under construction in this session; not claimed until its check is committed")})
     m={"version":1,"setup_cmd":"./verif setup",
-     "hooks":{"guard":"verif","enable":"no source hooks: `go test -c -overlay` with files generated from the working tree by sim/cmd/instrument (import shims for net/os, cooperative mutexes, select wake yields, an export file)","baseline_off_cmd":json.load(open('/root/.vp/BASELINE.json'))['cmd'],"source_commits":[],"add_only":True},
+     "hooks":{"guard":"verif","enable":"no source hooks: `go test -c -overlay` with files generated from the working tree by sim/cmd/instrument (import shims for net/os, cooperative mutexes, select wake yields, ordered polls in front of the session loop's select (off unless a workload sets an order), an export file)","baseline_off_cmd":json.load(open('/root/.vp/BASELINE.json'))['cmd'],"source_commits":[],"add_only":True},
      "engines":[{"name":"sim","path":"/verif/sim","serves_properties":sorted(claimed),"kind_free_text":"deterministic simulator: testing/synctest bubble + simnet/simos/simsync shims + seeded chooser + minimiser/replayer"}],
      "checks":checks,"not_applicable":na,
      "notes":"exit 2 = infrastructure (build/watchdog/non-replaying/nondeterministic), never reported as VIOLATION"}
